@@ -10,6 +10,7 @@
 //! Everything that decides a property lives on the python side (vplib); this
 //! binary only executes the real implementation and reports observations.
 
+mod builder_ops;
 mod inventory;
 mod modes;
 mod pool;
